@@ -34,6 +34,9 @@ def run(chk):
     chk.rule("INT64.product", "no multiplication whose result type is a signed 64-bit integer")
     chk.rule("STALE.pointers", "RectClip64 / RectClipLines64: results_, edges_[8], start_locs_ (raw pointers into op_container_) are empty "
              "again at every back edge of the path loop and at every exit - no pointer into a destroyed deque survives")
+    chk.rule("HOT.guard", "AddOutPt / AddLocalMaxPoly / IsFront / GetLastOp / JoinOutrecPaths dereference e.outrec: at each of the 47 call sites the edge "
+             "is known to carry output (dominating IsHotEdge test, or made hot by AddLocalMinPoly / StartOpenPath on the path); 9 sites rely on "
+             "documented sweep invariants and are allow-listed one by one")
     chk.rule("T.comparator", "LocMinSorter, IntersectListSort, HorzSegSorter are strict weak orders")
     for cfg in cfgs:
         db = AstDB(cfg)
@@ -42,6 +45,7 @@ def run(chk):
         if "noexc" not in cfg.split("+"):
             e9.rule_alloc_noexcept(Module(cfg), db, chk, cfg)
         e3.comparators(db, chk, cfg)
+        e9.rule_hot_guard(db, chk, cfg)
         # dangling OutPt2 pointers: the lists that point into op_container_ are emptied whenever it is reset
         eng = e2.E2(db, chk, cfg, ["RectClip64", "RectClipLines64"])
         for q in ("RectClip64::Execute", "RectClipLines64::Execute"):
@@ -55,6 +59,7 @@ def run(chk):
     chk.floor("GUARD.nonempty", 55 * n)
     chk.floor("ALLOC.noexcept", 15)
     chk.floor("INT64.product", 150 * n)
+    chk.floor("HOT.guard", 40 * n)
     _controls(chk)
     chk.explanation = (
         "Four clauses of C10 whose truth is visible in the code are decided for all inputs: non-emptiness guards (this is the rule that found "
